@@ -906,6 +906,13 @@ def purity_calls(ctx):
         add(mname + ":align", mf, st, rpose, est, epose, align=True)
         add(mname + ":align_scale", mf, st, rpose, est, epose, align=True, scale=True)
         add(mname + ":rotation", mf, st, rpose, est, epose, etype="rotation")
+        # every stamp matched one-to-one, in order (no gather of a subset inside): the estimate is still caller data
+        epose_n = pp.randn_SE3(n, dtype=f64)
+        for opt in ({}, {"align": True}, {"align": True, "scale": True}, {"etype": "rotation", "align": True}):
+            tag = ":matched" + "".join("/%s" % k for k in opt)
+            add(mname + tag, mf, st, rpose, st.clone(), epose_n, **opt)
+            add(mname + tag + "/f32", mf, st.float(), pp.randn_SE3(n), st.float(), pp.randn_SE3(n), **opt)
+    add("metric.ape:matched/origin", pp.metric.ape, st, rpose, st.clone(), pp.randn_SE3(n, dtype=f64), origin=True)
     add("metric.ape:origin", pp.metric.ape, st, rpose, est, epose, origin=True)
     add("metric.rpe:all_pairs", pp.metric.rpe, st, rpose, est, epose, all=True)
     # optim: kernels, correctors, solvers, functional, optimizers
